@@ -597,11 +597,6 @@ class MacroProgram(ElementProgram):
             define_macro = clause
             slot = nodes.UseInternalMacro(clause)
 
-        slot = wrap(
-            slot,
-            NAME
-        )
-
         # tal:on-error
         try:
             clause = ns[TAL, 'on-error']
@@ -679,8 +674,10 @@ class MacroProgram(ElementProgram):
         if use_macro:
             self._use_macro.pop()
 
+        # The fallback is part of the named translation block (if any)
         return wrap(
             slot,
+            NAME,
             ON_ERROR
         )
 
